@@ -189,6 +189,8 @@ def pitfall_sites(ctx):
   pitfalls.apply(ctx, 'PITFALL', scope, ['neg-zero-slice', 'previous-wraps'], {
       'neg-zero-slice': 'the events that remain are not the prefix / suffix the list model keeps, so len, end_step and indexing disagree with it',
       'previous-wraps': 'the first event is paired with the last one'})
+  pitfalls.apply(ctx, 'PITFALL', scope, ['reslice-indices'], {
+      'reslice-indices': 'a slice of an event sequence then does not hold the events the same slice of the event list holds'})
   # the methods whose job is to add steps: nothing that is already in the sequence may be lost on the way
   growers = [fi for fi in scope if fi.name in ('_append_steps', 'append')]
   ctx.require(len(growers) >= 2, 'the step-appending methods (_append_steps, append) were not found')
